@@ -1,7 +1,7 @@
 --------------------------- MODULE TraceGenBinomial ---------------------------
 (***************************************************************************)
-(* code -> model: a recorded MultistageCheckpointSchedule trace must be a  *)
-(* behaviour of the binomial generator model (GenBinomialCore), storage    *)
+(* code -> model: a recorded Multistage (or memory-only Revolve) trace must *)
+(* be a behaviour of the binomial generator model (GenBinomialCore), storage*)
 (* labels aside: at every next() the emitted action has to be one of the   *)
 (* actions the model allows in its current state (the step size any        *)
 (* Bellman-optimal one).  A mismatch is recorded as GEN.drift - a          *)
